@@ -15280,7 +15280,8 @@ func (t *TunnelEncapSubTLVUnknown) MarshalJSON() ([]byte, error) {
 func NewTunnelEncapSubTLVUnknown(typ EncapSubTLVType, value []byte) *TunnelEncapSubTLVUnknown {
 	return &TunnelEncapSubTLVUnknown{
 		TunnelEncapSubTLV: TunnelEncapSubTLV{
-			Type: typ,
+			Type:   typ,
+			Length: uint16(len(value)),
 		},
 		Value: value,
 	}
@@ -15331,7 +15332,8 @@ func (t *TunnelEncapSubTLVEncapsulation) MarshalJSON() ([]byte, error) {
 func NewTunnelEncapSubTLVEncapsulation(key uint32, cookie []byte) *TunnelEncapSubTLVEncapsulation {
 	return &TunnelEncapSubTLVEncapsulation{
 		TunnelEncapSubTLV: TunnelEncapSubTLV{
-			Type: ENCAP_SUBTLV_TYPE_ENCAPSULATION,
+			Type:   ENCAP_SUBTLV_TYPE_ENCAPSULATION,
+			Length: uint16(4 + len(cookie)), // Key (4) + Cookie
 		},
 		Key:    key,
 		Cookie: cookie,
@@ -15378,7 +15380,8 @@ func (t *TunnelEncapSubTLVProtocol) MarshalJSON() ([]byte, error) {
 func NewTunnelEncapSubTLVProtocol(protocol uint16) *TunnelEncapSubTLVProtocol {
 	return &TunnelEncapSubTLVProtocol{
 		TunnelEncapSubTLV: TunnelEncapSubTLV{
-			Type: ENCAP_SUBTLV_TYPE_PROTOCOL,
+			Type:   ENCAP_SUBTLV_TYPE_PROTOCOL,
+			Length: 2,
 		},
 		Protocol: protocol,
 	}
@@ -15426,7 +15429,8 @@ func (t *TunnelEncapSubTLVColor) MarshalJSON() ([]byte, error) {
 func NewTunnelEncapSubTLVColor(color uint32) *TunnelEncapSubTLVColor {
 	return &TunnelEncapSubTLVColor{
 		TunnelEncapSubTLV: TunnelEncapSubTLV{
-			Type: ENCAP_SUBTLV_TYPE_COLOR,
+			Type:   ENCAP_SUBTLV_TYPE_COLOR,
+			Length: 8, // the color as an opaque extended community
 		},
 		Color: color,
 	}
@@ -15527,9 +15531,15 @@ func NewTunnelEncapSubTLVEgressEndpoint(address netip.Addr) (*TunnelEncapSubTLVE
 	if !address.IsValid() {
 		return nil, fmt.Errorf("invalid address: %v", address)
 	}
+	// Reserved (4) + Address Family (2) + Address
+	length := uint16(EGRESS_ENDPOINT_ADDRESS_POS + net.IPv6len)
+	if address.Is4() {
+		length = EGRESS_ENDPOINT_ADDRESS_POS + net.IPv4len
+	}
 	return &TunnelEncapSubTLVEgressEndpoint{
 		TunnelEncapSubTLV: TunnelEncapSubTLV{
-			Type: ENCAP_SUBTLV_TYPE_EGRESS_ENDPOINT,
+			Type:   ENCAP_SUBTLV_TYPE_EGRESS_ENDPOINT,
+			Length: length,
 		},
 		Address: address,
 	}, nil
@@ -15575,7 +15585,8 @@ func (t *TunnelEncapSubTLVUDPDestPort) MarshalJSON() ([]byte, error) {
 func NewTunnelEncapSubTLVUDPDestPort(port uint16) *TunnelEncapSubTLVUDPDestPort {
 	return &TunnelEncapSubTLVUDPDestPort{
 		TunnelEncapSubTLV: TunnelEncapSubTLV{
-			Type: ENCAP_SUBTLV_TYPE_UDP_DEST_PORT,
+			Type:   ENCAP_SUBTLV_TYPE_UDP_DEST_PORT,
+			Length: 2,
 		},
 		UDPDestPort: port,
 	}
